@@ -1966,6 +1966,12 @@ pub fn gen_wire(r: &mut Rng, stats: &mut Stats, pfx: &str, shape: Shape, mut_pct
         }
     }
     let mut m = gen_pkt(r, shape, stats);
+    if m.edns.is_some() && r.chance(1, 6) {
+        // on the wire a client may advertise less than 512 octets (legal, unusual): what it decodes to must
+        // survive re-encoding
+        m.bufsize = *r.pick(&[0u16, 1, 255, 256, 511]);
+        stats.bump(&format!("{}.opt-size-below-512", pfx));
+    }
     let mut flags = EncFlags::default();
     if r.chance(1, 10) {
         flags.opt_first = true;
